@@ -2,7 +2,7 @@
 From Coq Require Import Permutation.
 From Boltons Require Import Lib.Prelude Model.C17_Model Spec.C17_Spec Check.C17_Check
   Proofs.C17_Dict Proofs.C17_OTO Proofs.C17_M2M Proofs.C17_FD Proofs.C17_RefineOTO
-  Proofs.C17_RefineM2M Proofs.C17_RefineFD.
+  Proofs.C17_RefineM2M Proofs.C17_RefineFD Proofs.C17_Agree.
 
 (* OneToOne: after ANY history of instance creation (pairs, .unique, copies),
    []=, del, pop, popitem, clear, setdefault, update, |=, update-from-instance,
@@ -131,3 +131,18 @@ Example C17_frozen_inhabited :
   snd (fd_hash ih (mkFD [(4,5);(0,1);(2,3)] HUnset)) /\
   snd (fd_hash ih (mkFD [(0,1);(2,901)] HUnset)) = Raise FrozenHashError.
 Proof. split; vm_compute; reflexivity. Qed.
+
+(* The link used by every run: for ANY recorded observations whatsoever (of any
+   of the three families), if they agree with the model then they satisfy the
+   Spec.  [c17_wf]: no recorded result is the model's out-of-range marker /
+   the FrozenDict history takes the hash at least once. *)
+Theorem C17_agree_implies_holds : forall c, c17_wf c ->
+  fst (fst (c17_verdict c)) = true -> snd (fst (c17_verdict c)) = true.
+Proof. exact agree_implies_holds. Qed.
+Print Assumptions C17_agree_implies_holds.
+
+Example C17_agree_implies_holds_inhabited :
+  let c := COto [(HNew false [(0,1);(2,1)], (Ok VNone, [([(2,1)], [(1,2)], true)]));
+                 (HOp 0 true (OSet 1 5), (Ok VNone, [([(5,1)], [(1,5)], true)]))] in
+  c17_wf c /\ c17_verdict c = (true, true, false).
+Proof. split; [repeat constructor; simpl; discriminate|vm_compute; reflexivity]. Qed.
